@@ -69,7 +69,10 @@ CLAIMED = {
          "and the gate's own reader gets that integer back; a second pass changes nothing (integers, booleans, base64, strings, "
          "hex); booleans accept only the spellings of true/false and reject everything else; base64 padding completes the length "
          "to a multiple of four and changes nothing else; decimals are exact for every coefficient size when the type keeps enough "
-         "digits, otherwise the nearest value (half-even), zero unsigned; the calendar conversion is the inverse of the ordinal "
+         "digits, otherwise the nearest value (half-even), zero unsigned, and Decimal(text) reads every fixed point output back exactly so "
+         "that a second pass changes nothing for every value and 1..5000 fractional digits; the rendering of an integer is the canonical "
+         "numeral, so the gate of an integer data type (C03's all-strings theorem) accepts a normalised integer exactly when it is in "
+         "range, for every integer; the calendar conversion is the inverse of the ordinal "
          "on all 3652059 days (exhaustive by computation) and an aware datetime is printed as the UTC reading of the same instant. "
          "The pinned behaviours (len%4 padding, garbage->false, untouched offsets) are refuted with witnesses. Tied to the code by "
          "T1 (digit/whitespace tables regenerated from the interpreter, pad/format expressions from the source ast, compared by "
@@ -77,7 +80,7 @@ CLAIMED = {
          "oracle with independent denotations (Fraction, datetime arithmetic, ipaddress) demanding the exact expected string, "
          "acceptance by the real EventValidator, idempotence and no laundering of garbage; writer auto-repair and to_edxml_object "
          "paths included.",
-    note=TB + "idempotence of float / decimal / datetime / IP / geo output and correct rounding of %E are established by the oracle "
+    note=TB + "idempotence of float / datetime / IP / geo output and correct rounding of %E are established by the oracle "
          "and correspondence only (not proved); dateutil and IPy are not modelled; Unicode case folding outside ASCII is outside the "
          "model. Open known findings: integer types truncate non-integral floats / Decimals (pinned by a test).",
     technique="Coq proof over an executable normaliser model (incl. exhaustive calendar check) + regenerated tables/source facts + differential correspondence with independent-denotation oracle", ref='5 C13'),
